@@ -232,6 +232,7 @@ def queue_model_run(kind, width, depth, trace):
 
         async def tb(ctx):
             q = []
+            starved = False           # an entry was held but not readable at the previous step
             for (w_en, w_data, r_en) in trace:
                 ctx.set(f.w_en, w_en)
                 if width:
@@ -249,6 +250,9 @@ def queue_model_run(kind, width, depth, trace):
                     problems.append(f"level {level} != {len(q)}")
                 if not w_rdy and depth - len(q) >= (1 if kind == "SyncFIFO" else 2):
                     problems.append("w_rdy low with free slots")
+                if q and not r_rdy and (kind == "SyncFIFO" or starved):
+                    problems.append("an entry is held but not readable" + ("" if kind == "SyncFIFO" else " for the second edge in a row"))
+                starved = bool(q) and not r_rdy
                 if problems and not log["violated"]:
                     log["violated"], log["what"] = True, f"at step {len(log['states'])}: " + "; ".join(problems) + f" (queue {q})"
                 log["states"].append((w_rdy, r_rdy, r_data, level))
@@ -263,6 +267,17 @@ def queue_model_run(kind, width, depth, trace):
 
 
 def replay_from_reset(kind, width, depth, cst, cin):
+    """Canonical traces towards the counterexample's situation (with and without an idle cycle before its strobes, and with the
+    strobes held); the first one on which the real FIFO misbehaves is reported."""
+    rep = None
+    for variant in (0, 1, 2):
+        rep = _replay_from_reset(kind, width, depth, cst, cin, variant)
+        if rep["violated"]:
+            return rep
+    return rep
+
+
+def _replay_from_reset(kind, width, depth, cst, cin, variant):
     """Find a trace from reset that reaches an abstractly equal situation is hard in general; instead
     drive a canonical trace that produces the counterexample's pointer/level values: fill/drain."""
     # canonical: push `consume` entries and pop them (moves both pointers), then push the remaining ones
@@ -278,8 +293,10 @@ def replay_from_reset(kind, width, depth, cst, cin):
     rows = cst.get("rows", [])
     for k in range(target_len):
         trace.append((1, (rows[(consume + k) % len(rows)] if rows else 0) & ((1 << width) - 1), 0))
-    trace.append((0, 0, 0))
-    trace.append((cin["w_en"], cin["w_data"], cin["r_en"]))
+    if variant == 0:
+        trace.append((0, 0, 0))
+    for _ in range(1 if variant < 2 else 3):        # variant 2: the counterexample's strobes are held for three cycles
+        trace.append((cin["w_en"], cin["w_data"], cin["r_en"]))
     trace.append((0, 0, 0))
     trace.append((0, 0, 1))
     trace.append((0, 0, 1))
